@@ -1,5 +1,5 @@
 """C01 - SM simfile: serialize then parse gives back the same simfile (structural clauses)."""
-from ..rules import serial
+from ..rules import readers, serial
 
 EXPLANATION = (
     "Static rule checking (ast + CFG/dominance + constant evaluation) of the structural conditions the SM round trip "
@@ -21,7 +21,7 @@ def c1(ctx):
 
 def c3(ctx):
     serial.writer_item_loop(ctx, serial.BASE_SERIALIZE, notes_exempt=False)
-    serial.reader_multi(ctx, 'sm', raw_key_ok=True)
+    readers.sm_simfile_table(ctx, raw_key_ok=True)
 
 
 def c5(ctx):
